@@ -325,6 +325,53 @@ pub fn run_property(id: &'static str) -> ! {
     }
     layout_report = json!({"programs_one_per_family_and_shape": picked.len(), "compilations_with_two_entry_points": layouts.len(), "launchers_run": layouts.iter().filter(|l| l.main.is_some()).count() * 4});
   }
+  // ---- programs of several modules in which one name means different things ----
+  let cross_module_report;
+  {
+    let progs = evalprog::cross_module_name_family();
+    let evals_m = evalprog::evaluate_multi(&progs, &format!("{id}-multi")).unwrap_or_else(|e| machinery_failure(&e));
+    for (p, e) in progs.iter().zip(&evals_m) {
+      let payload = |extra: Value| json!({"name": p.name, "shape": p.shape, "modules": p.modules, "detail": extra});
+      let sig = |m: &str| format!("cross-module|{}|{m}", p.name);
+      if let Some(err) = &e.rejected {
+        machinery_failure(&format!("the cross-module program `{}` is rejected by the front end: {err}", p.name));
+      }
+      let r = e.reference.as_ref().unwrap();
+      compared += 1;
+      match id {
+        "C01" => {
+          if let Some(w) = &e.wasm {
+            if let Some(m) = same_as_ref(r, w) {
+              run.violation(&sig(&m), &format!("compiled WebAssembly deviates from the source semantics ({m}; {}) in `{}`", first_diff(&r.lines, &w.lines), p.name), payload(json!({"reference": r.lines, "wasm": {"lines": w.lines, "ending": rend(&w.ending)}})));
+            }
+          }
+        }
+        "C04" => {
+          if let (Some(w), Some(t)) = (&e.wasm, &e.ts) {
+            if w != t {
+              run.violation(&sig("backends-differ"), &format!("back ends differ (wasm {} / ts {}; {}) in `{}`", rend(&w.ending), rend(&t.ending), first_diff(&w.lines, &t.lines), p.name), payload(json!({"wasm": w.lines, "ts": t.lines})));
+            }
+          }
+        }
+        _ => {
+          match &e.compile {
+            Err(CompileFail::Panicked(x)) => run.violation(&sig(&format!("compile-panic:{}", compile_panic_signature(x))), &format!("compilation of an accepted program crashed ({}) in `{}`", x.chars().take(200).collect::<String>(), p.name), payload(json!(null))),
+            Err(CompileFail::Rejected(m)) => run.violation(&sig("compile-rejected"), &format!("compile_sources rejected a program the checker accepts: {}", m.chars().take(200).collect::<String>()), payload(json!(null))),
+            Ok(()) => {}
+          }
+          if let Some(Err(v)) = &e.validation {
+            run.violation(&sig("invalid-wasm"), &format!("emitted module fails validation ({v}) in `{}`", p.name), payload(json!(null)));
+          }
+          for (name, res) in [("wasm", &e.wasm), ("ts", &e.ts)] {
+            if let Some(RunResult { ending: REnding::Fault(k, m), .. }) = res {
+              run.violation(&sig(&format!("{name}:fault:{k}")), &format!("{name}: {k}: {} in `{}`", m.chars().take(160).collect::<String>(), p.name), payload(json!(null)));
+            }
+          }
+        }
+      }
+    }
+    cross_module_report = json!({"programs": progs.len(), "names": progs.iter().map(|p| p.name.clone()).collect::<Vec<_>>()});
+  }
   // ---- C03 (b): accepted single-edit mutants of the repository's sample programs ----
   let mut mutant_report = json!(null);
   if id == "C03" {
@@ -466,6 +513,7 @@ pub fn run_property(id: &'static str) -> ! {
       "dropped_unspecified": dropped_unspecified,
       "family_programs_rejected_by_the_front_end_and_skipped": {"count": rejected_by_front_end.len(), "first": rejected_by_front_end.iter().take(5).collect::<Vec<_>>()},
       "project_layouts_multi_segment_module_and_two_entry_points": layout_report,
+      "cross_module_name_programs": cross_module_report,
       "accepted_single_edit_mutants": mutant_report,
       "generated_conformance_visibility_call_shape_programs": illtyped_report,
       "exhaustive": true,
